@@ -438,7 +438,7 @@ def fball(rng, dim, rmax=0.9):
 def gen_fletter(rng, dim, tmax):
     kinds = ["origin_to", "tv_origin_to", "isometry_to", "elliptic", "loxodromic", "timelike_to", "spacelike_to"]
     if dim >= 2:
-        kinds += ["rotation", "reflection"]
+        kinds += ["rotation", "reflection", "reflectionD"]
     if dim == 2:
         kinds += ["sl2", "sl2", "cox"]
     if dim == 3:
@@ -462,12 +462,13 @@ def gen_fletter(rng, dim, tmax):
     elif k == "rotation":
         l["angle"] = rng.uniform(-7, 7)
         l["pack"] = rng.choice(["float", "np"])
-    elif k == "reflection":
+    elif k in ("reflection", "reflectionD"):
         while True:
             d = [rng.gauss(0, 1) for _ in range(dim + 1)]
             if -d[0] ** 2 + sum(x * x for x in d[1:]) > 0.2:
                 break
         l["d"] = d
+        l["rowscale"] = [rng.choice([-1, 1]) * math.exp(rng.uniform(-2, 2)) for _ in range(dim + 1)]
     elif k == "sl2":
         t = rng.uniform(-tmax / 2, tmax / 2)
         a, b = rng.uniform(0, 6.3), rng.uniform(0, 6.3)
@@ -509,6 +510,10 @@ def build_fletter(l, dim):
         return H.Isometry.standard_rotation(a, dimension=dim)
     if k == "reflection":
         return H.Hyperplane(np.array(l["d"])).reflection_across()
+    if k == "reflectionD":
+        # hyperplane data is projective row by row: rescale the rows the library computed and build the hyperplane from data
+        data = np.asarray(H.Hyperplane(np.array(l["d"])).proj_data, dtype=float) * np.array(l["rowscale"])[:, None]
+        return H.Hyperplane(data).reflection_across()
     if k == "sl2":
         return H.sl2_iso(np.array(l["A"]))
     if k == "cox":
